@@ -330,13 +330,17 @@ pub fn check_schedule(
             }
         }
         // bounded liveness, for generated programs (their loops are tiny): the compiled program
-        // has used up its step budget with a single goroutine left — nobody can change what it
-        // is waiting for — while the source semantics, after the very same events, come to an end
-        (Stop::Halted(why), Stop::MainReturned | Stop::Failed(_)) if STRICT_LIVENESS.with(|c| c.get()) && why == "step budget exhausted" && out.live_at_stop == 1 => {
+        // has used up its step budget with a single goroutine left, or with a goroutine that took
+        // thousands of loop back-edges without reading a shared cell or performing an effect —
+        // nobody can end such a loop — while the source semantics, after the very same events,
+        // come to an end
+        (Stop::Halted(why), Stop::MainReturned | Stop::Failed(_))
+            if STRICT_LIVENESS.with(|c| c.get()) && why == "step budget exhausted" && (out.live_at_stop == 1 || out.max_blind_spins >= 2_000) =>
+        {
             checked.verdict = Verdict::Violates(Mismatch {
                 class: "compiled-spins-forever".into(),
                 detail: format!(
-                    "after {} common events the compiled program keeps running without any further effect (step budget exhausted, one goroutine left), the source semantics end with {:?}",
+                    "after {} common events the compiled program keeps running without any further effect (step budget exhausted; a loop that nobody else can end), the source semantics end with {:?}",
                     out.events.len(),
                     rout.stop
                 ),
